@@ -22,3 +22,62 @@ def rtl_check_msg(msg):
 def same_object(paths):
     from symx.replay_server import resolve
     return resolve(paths[0]) is resolve(paths[1])
+
+
+def stream_read(arg):
+    """feed `wire` (list of byte values) to a TcpClient in the pieces given by `cuts`; return the message strings each
+    read produced"""
+    import sys, types
+    for name in ("zmq",):
+        if name not in sys.modules:
+            try:
+                __import__(name)
+            except Exception:
+                m = types.ModuleType(name)
+                sys.modules[name] = m
+    from pyModeS.extra import tcpclient
+    c = object.__new__(tcpclient.TcpClient)
+    c.buffer = []
+    c.current_msg = ""
+    fmt = arg["fmt"]
+    read = {"beast": c.read_beast_buffer, "beast_rssi": c.read_beast_buffer_rssi_piaware, "raw": c.read_raw_buffer,
+            "skysense": c.read_skysense_buffer}[fmt]
+    wire, cuts = arg["wire"], [0] + sorted(arg["cuts"]) + [len(arg["wire"])]
+    outs = []
+    for a, b in zip(cuts, cuts[1:]):
+        if b <= a:
+            continue
+        c.buffer.extend(wire[a:b])
+        r = read()
+        outs.append([m[0] for m in (r or [])])
+    return outs
+
+
+def netsource_feed(arg):
+    import sys, types
+    if "zmq" not in sys.modules:
+        try:
+            __import__("zmq")
+        except Exception:
+            sys.modules["zmq"] = types.ModuleType("zmq")
+    _stub_hw()
+    from pyModeS.streamer import source
+
+    class Flag:
+        value = False
+
+    class Pipe:
+        def __init__(self):
+            self.sent = []
+
+        def send(self, o):
+            self.sent.append({k: list(v) for k, v in o.items()})
+    obj = object.__new__(source.NetSource)
+    obj.reset_local_buffer()
+    obj.stop_flag = Flag()
+    obj.raw_pipe_in = Pipe()
+    for call in arg["calls"]:
+        obj.handle_messages([(m, t) for m, t in call])
+    sent = obj.raw_pipe_in.sent
+    return ([m for b in sent for m in b["adsb_msg"]] + list(obj.local_buffer_adsb_msg),
+            [m for b in sent for m in b["commb_msg"]] + list(obj.local_buffer_commb_msg))
